@@ -23,6 +23,7 @@ func runC07(r *an.Run) {
 	if m := buildRunModel(r); m != nil {
 		c07ValidateBeforeEmit(r, m)
 		c07ErrorEdgesSkipSinks(r, m)
+		c07WrittenFileStartsEmpty(r, m)
 	}
 	c07API(r)
 	slotGuard(r, "R3-slot-guard")
